@@ -995,7 +995,9 @@ func (self *Node) SetMany(pathes []PathNode, opts *Options) (err error) {
 				sp = rt.AddPtr(self.v, 6)
 			}
 			ps.a[i].Node = errNotFoundLast(sp, self.t)
-			ps.a[i].Node.setNotFound(a.Path, &ps.b[i].Node)
+			if err = ps.a[i].Node.setNotFound(a.Path, &ps.b[i].Node); err != nil {
+				goto ret
+			}
 		}
 	}
 
